@@ -215,7 +215,7 @@ SPEC = {
     "property": "C09",
     "functions": FUNCTIONS,
     "bounds": "all catalogue programs of harness/progs.py (await/start children with actions, when/or-when scopes, or-groups of flows, activate (waiting / immediate / two activators), grand-children with and/or "
-              "match groups, competing flows, while+if with payload, an action used as a `when` case losing an action conflict, main finished explicitly and restarted, shared actions, repeated activation); after a native prefix (the Go event that gets main going), histories of L=2 (quick) / L=3 all, L=4 on 4 programs (thorough) events over each program's alphabet incl. "
+              "match groups, competing flows, while+if with payload, an action used as a `when` case losing an action conflict, main finished explicitly and restarted, shared actions, repeated activation); after a native prefix (the Go event that gets main going), histories of L=2 (quick) / L=3 all, L=4 on one program (thorough) events over each program's alphabet incl. "
               "ActionStarted/ActionFinished feedback for the actions started so far; payload offsets 0..1; 3 symbolic tie-break values; one optional 10 s idle gap (clean-up) at any step",
     "outside": "programs outside the catalogue; longer histories; more than one idle gap",
     "assumptions": ["the state is built from source natively per path (parse/expansion untraced); everything from the first external event on is traced",
@@ -228,8 +228,8 @@ SPEC = {
          "tcond": 900, "tpath": 30, "bound": "prefix + L=2 on all programs; L=3 on the deactivate program",
          "smoke": [{"slice": {"prog": "when_scope", "L": 3}, "args": dict(s0=2, s1=4, s2=5, s3=0, p0=0, p1=0, p2=0, p3=0, c0=0, c1=1, c2=2, tadv=2)},
                    {"slice": {"prog": "activate_two_parents", "L": 3}, "args": dict(s0=3, s1=1, s2=4, s3=0, p0=0, p1=0, p2=0, p3=0, c0=0, c1=0, c2=0, tadv=1)}]},
-        {"fn": "quiescent", "tiers": ("thorough",), "slices": _slices(ALL, 3) + _slices(["await_child_action", "activate_two_parents", "finish_main"], 4),
-         "tcond": 3000, "tpath": 60, "bound": "prefix + L=3 on all programs; L=4 on 3 programs (partitioned on the first event)"},
+        {"fn": "quiescent", "tiers": ("thorough",), "slices": _slices(ALL, 3) + [{"prog": "finish_main", "L": 4, "s0": i} for i in range(5)],
+         "tcond": 3000, "tpath": 60, "bound": "prefix + L=3 on all programs; L=4 on finish_main (partitioned on the first event)"},
         {"fn": "quiescent_twin", "expect": "counterexample", "slices": [{"prog": "await_child_action", "L": 2}, {"prog": "activate_wait", "L": 2}], "tcond": 300, "tpath": 30, "bound": "twin"},
     ],
 }
